@@ -219,6 +219,8 @@ def run_case(case, ctx):
     rng = random.Random(case['seed'] + 5)
     try:
         assign = pitlib.apply_channel_masks(pit, rng, case['mask_mode'])
+        from vf import neutral
+        neutral.maybe_freeze(pit, case['seed'])     # a frozen parameter group changes nothing
         layers = dict(pitlib.pit_layers(pit))
         masks = {n: [int(v) for v in l.features_mask.tolist()] for n, l in layers.items()
                  if isinstance(l, (PITConv1d, PITConv2d, PITLinear))}
